@@ -50,6 +50,18 @@ REAL = [
     ('RETURN = query_bucket();', "QueryInterpret"),
     ('RETURN = query_bucket("win", "afk");', "QueryInterpret"),
     ('RETURN = query_bucket(nosuch);', "QueryInterpret"),
+    # a name that differs from a bucket id only in letter case (or case-folds to it) is an unknown bucket
+    ('RETURN = query_bucket("WIN");', "QueryFunction"),
+    ('RETURN = query_bucket("Win");', "QueryFunction"),
+    ('RETURN = query_bucket_eventcount("AFK");', "QueryFunction"),
+    ('RETURN = query_bucket("win-HOST2");', "QueryFunction"),
+    ('RETURN = query_bucket(find_bucket("WIN"));', "QueryFunction"),
+    ('RETURN = query_bucket("win-host2");', "value"),
+    # a long list where a string or an integer is expected: a function error like any other wrong top-level type
+    ('RETURN = query_bucket([' + ", ".join(str(i) for i in range(40)) + ']);', "QueryFunction"),
+    ('RETURN = query_bucket(query_bucket("win"));', "QueryFunction"),
+    ('RETURN = limit_events(query_bucket("win"), [' + ", ".join('"x"' for i in range(33)) + ']);', "QueryFunction"),
+    ('e = query_bucket("win"); RETURN = filter_keyvals(e, concat(e, concat(e, concat(e, concat(e, concat(e, e))))), ["a"]);', "QueryFunction"),
 ]
 
 
@@ -109,6 +121,12 @@ def deep_cases():
     """bracket nesting far beyond what programs use: search-only (the depth at which CPython's recursion limit is
     hit - reported as a parse error since F21 - depends on the caller's stack, so it is not modelled)"""
     out = []
+    for d in list(range(860, 1012, 2)) + [300, 700]:
+        # a call (an argument-less one, and one with a string argument) at the bottom of a literal nested about as deep as the
+        # interpreter's stack allows: building the tokens needs fewer frames than evaluating them
+        out.append("RETURN = " + "[" * d + "nop()" + "]" * d + ";")
+        out.append("RETURN = " + "[" * d + 'sort_by_timestamp([])' + "]" * d + ";")
+        out.append("RETURN = " + '{"a": ' * (d // 2) + "[" * (d // 2) + "nop()" + "]" * (d // 2) + "}" * (d // 2) + ";")
     for d in (200, 600, 1000, 1200, 1500, 5000):
         out.append("RETURN = " + "[" * d + "]" * d + ";")
         out.append("RETURN = " + "[1, " * d + "2" + "]" * d + ";")
@@ -195,7 +213,7 @@ class C17(Prop):
         # function error every time, whatever was looked up before
         rng = ctx.rng("c17seq")
         qs = [('RETURN = query_bucket("{b}");', ), ('RETURN = query_bucket_eventcount("{b}");', ),
-              ('e = query_bucket("{b}"); RETURN = sort_by_timestamp(e);', ), ('RETURN = query_bucket(find_bucket("{b}"));', )]
+              ('e = query_bucket("{b}"); RETURN = sort_by_timestamp(e);', ), ('RETURN = query_bucket(find_bucket("{b}", "host1"));', )]
         for _ in range(ctx.pick(40, 600)):
             steps = []
             for _ in range(rng.randint(3, 8)):
